@@ -266,7 +266,6 @@ impl Array8 {
     pub fn deserialize(
         mut cursor: SketchSlice,
         lg_config_k: u8,
-        compact: bool,
         ooo: bool,
     ) -> Result<Self, Error> {
         let k = 1usize << lg_config_k;
@@ -288,13 +287,10 @@ impl Array8 {
 
         // Read byte array from offset HLL_BYTE_ARR_START
         let mut data = vec![0u8; k];
-        if !compact {
-            cursor
-                .read_exact(&mut data)
-                .map_err(insufficient_data("data"))?;
-        } else {
-            cursor.advance(k as u64);
-        }
+        // the register array is part of compact and updatable images alike
+        cursor
+            .read_exact(&mut data)
+            .map_err(insufficient_data("data"))?;
 
         // Create estimator and restore state
         let mut estimator = HipEstimator::new(lg_config_k);
